@@ -184,6 +184,28 @@ pub const VALID: &[(&str, Option<i64>)] = &[
     ("{ c := mut false; r := (c = 1 < 2 && 3 > 2); x := if r { 2 } else { 0 }; y := if *c { 1 } else { 0 }; x + y }", Some(3)),
     ("{ c := mut 1; r := (c += 2 << 1 | 1); r * 100 + *c }", Some(606)),
     ("{ c := mut 0; d := mut 0; r := (c = d = 4 + 1); r * 100 + *c * 10 + *d }", Some(555)),
+    // an assignment in an element, argument, operand or bound that is NOT the one selected still happens
+    ("{ c := mut 0; v := [c += 1, *c][1]; v * 10 + *c }", Some(11)),
+    ("{ c := mut 0; v := [c += 1, c += 1, *c][0]; v * 10 + *c }", Some(12)),
+    ("{ c := mut 0; v := (c += 1, *c).1; v * 10 + *c }", Some(11)),
+    ("{ c := mut 0; s := struct{a := c += 1, b := 5}; s.b * 10 + *c }", Some(51)),
+    ("{ c := mut 0; k := 1; v := [c += 1, c += 10][k]; v * 100 + *c }", Some(1111)),
+    ("{ c := mut 0; f := (a: int, b: int) -> int { return b }; v := f(c += 1, *c); v * 10 + *c }", Some(11)),
+    ("{ c := mut 0; f := () -> int { return [c += 1, *c][1] }; f() * 10 + *c }", Some(11)),
+    ("{ c := mut 0; f := () -> int { return (c += 1, 7, c += 1).1 }; f() * 10 + *c }", Some(72)),
+    ("{ c := mut 0; v := if true { c += 1; 5 } else { c += 10; 6 }; v * 10 + *c }", Some(51)),
+    ("{ c := mut 0; b := (c += 1) > 0 || (c += 10) > 0; *c }", Some(1)),
+    ("{ c := mut 0; b := (c += 1) < 0 && (c += 10) > 0; *c }", Some(1)),
+    ("{ c := mut 0; v := [[c += 1, 2], [3, c += 10]][0][1]; v * 100 + *c }", Some(211)),
+    ("{ c := mut 0; v := ([c += 1] + [c += 10])[0]; v * 100 + *c }", Some(111)),
+    // every iteration of a loop body has a scope of its own: a name used before the body
+    // re-declares it denotes the OUTER cell in every iteration
+    ("{ c := mut 0; n := mut 0; loop { c += 1; n += 1; if *n >= 3 { break }; c := mut 100; c += 1 }; *c }", Some(3)),
+    ("{ c := mut 0; n := mut 0; while true { c += 1; n += 1; if *n >= 3 { break }; c := mut 100; c += 1 }; *c }", Some(3)),
+    ("{ c := mut 0; n := mut 0; while *n < 3 { c += 1; n += 1; c := mut 100; c += 1 }; *c }", Some(3)),
+    ("{ c := mut 0; for e in [1, 2, 3]~ { c += e; c := mut 100; c += 1 }; *c }", Some(6)),
+    ("{ c := mut 0; n := mut 3; while x: int = *n { if x < 1 { break }; c += x; n -= 1; c := mut 100; c += 1 }; *c }", Some(6)),
+    ("{ c := mut 0; w := (k: int) -> int { n := mut 0; loop { c += 1; n += 1; if *n >= k { break }; c := mut 100; c += 1 }; return *c }; w(2) * 10 + w(2) }", Some(24)),
     ("ps = struct{x := 5, y := 6}", None),
     ("pt = (2, \"t\")", None),
     ("pu = [\"a\", 2]", None),
